@@ -153,6 +153,20 @@ CHECKS = {
         technique="TLA+ spec (MassMatrix) + TLC over all key listings + trace validation of real tune() calls and engine runs",
         ref="DESIGN.md section 5, C12",
     ),
+    "C13": dict(
+        text="Gibbs.tla states the inverse-gamma full conditional (shape a + rank/2, scale b + beta'K beta/2, log-kernel) and "
+             "the finite-discrete conditional over IEEE doubles; MC_GibbsInvariance shows on every finite product space that "
+             "redrawing a block from the exact conditional leaves the target invariant (a wrong conditional weight is "
+             "refuted). The real kernels are bound by trace validation: the spec's parameters must reproduce the model's "
+             "joint density ratios over a tau2 grid (three points fix shape and scale), the draw must equal scale/Gamma(shape) "
+             "replayed on the same key, the scale law must hold, also after hyper-parameters / penalty were changed after "
+             "building the kernel; the discrete kernel's 64 draws must equal the categorical replay on the model's "
+             "log-probability at each outcome (direct likelihood, likelihood behind a named deterministic variable, two "
+             "children, prior only; explicit and inferred outcomes).",
+        note="jax.random.gamma / categorical are trusted to sample the named laws; a replay mismatch alone never alarms: a distribution-free guard (KS / chi-square, p < 1e-9, fresh keys) must also reject. " + TRUST,
+        technique="TLA+ specs (Gibbs, finite-product invariance) + TLC + trace validation with sampler replay and density-ratio oracle",
+        ref="DESIGN.md section 5, C13",
+    ),
     "C14": dict(
         text="Transform.tla is a symbolic state machine (values are terms with the rewrite fwd(b, inv(b, x)) = x): "
              "Transform(v, b) with the code's rejections (weak, no distribution, name taken), assignment with "
